@@ -177,3 +177,67 @@ Proof. vm_compute. repeat split. Qed.
 
 Print Assumptions c17_mean_not_limited_by_column_type. Print Assumptions c17_sum_in_column_type.
 Print Assumptions c17_mean_via_column_sum_iff. Print Assumptions c17_mean_via_column_sum_refuted. Print Assumptions c17_range_example.
+
+(* ---- one aggregator VALUE applied more than once (Agg/AggStateless.v, Agg/AggStatelessLaws.v) ----
+   An aggregator value is a machine (private state + one step per application).  The code's values carry no state
+   (fn items; percentile(p)'s closure captures the f64 p only and is `Fn`): code_machine.  agg_seq k ins = the results
+   of applying ONE value of aggregator k to the inputs ins in a row. *)
+From AV Require Import Agg.AggStateless.
+From AV Require Import Agg.AggStatelessLaws.
+
+(* applications are independent: the results of a sequence are the definition applied to each input on its own ... *)
+Theorem c17_applications_independent : forall k ins, agg_seq k ins = map (agg_apply k) ins.
+Proof. exact agg_seq_independent. Qed.
+(* ... so the result at any position is the one of a fresh aggregator, whatever was aggregated before and after *)
+Theorem c17_application_ignores_history : forall k pre i post,
+  nth_error (agg_seq k (pre ++ i :: post)) (length pre) = Some (agg_apply k i) /\ agg_seq k [i] = [agg_apply k i].
+Proof. intros k pre i post; split; [exact (agg_seq_nth k pre i post) | exact (agg_seq_independent k [i])]. Qed.
+(* in general: a machine whose results do not depend on its state is a function of each input *)
+Theorem c17_output_only_machine_is_function : forall (S : Type) (m : machine S) (f : ainput -> aresult),
+  (forall s i, snd (m_step m s i) = f i) -> forall ins, run_seq m ins = map f ins.
+Proof. intros S m f; exact (stateless_machine_is_map m f). Qed.
+
+(* the clauses of the property at an arbitrary position of an arbitrary sequence of applications *)
+Theorem c17_seq_empty_input : forall k pre h post,
+  nth_error (agg_seq k (pre ++ (h, []) :: post)) (length pre) =
+  Some (match k with ASum => Ok [(0, 1)] | ANot => Ok [(0, 1)] | ACount => Ok (ints (agg_count h 0)) | _ => Ok [] end).
+Proof. exact agg_seq_empty_input. Qed.
+Theorem c17_seq_percentile_rank : forall pn pd pre h l post, l <> [] -> 0 < pd -> 0 <= pn <= 100 * pd ->
+  exists x, nth_error (agg_seq (APct pn pd) (pre ++ (h, l) :: post)) (length pre) = Some (Ok [(x, 1)]) /\ In x l /\
+            rank_elem (Z.min ((zlen l * pn) / (pd * 100)) (zlen l - 1)) l = Some x.
+Proof. exact agg_seq_percentile_rank. Qed.
+Theorem c17_seq_min_max : forall pre h l post, l <> [] ->
+  (exists m, nth_error (agg_seq AMin (pre ++ (h, l) :: post)) (length pre) = Some (Ok [(m, 1)]) /\ is_min m l) /\
+  (exists m, nth_error (agg_seq AMax (pre ++ (h, l) :: post)) (length pre) = Some (Ok [(m, 1)]) /\ is_max m l).
+Proof. exact agg_seq_min_max. Qed.
+Theorem c17_seq_sum_count_mean : forall pre h l post,
+  nth_error (agg_seq ASum (pre ++ (h, l) :: post)) (length pre) = Some (Ok [(zsum l, 1)]) /\
+  (hint_ok h (zlen l) -> nth_error (agg_seq ACount (pre ++ (h, l) :: post)) (length pre) = Some (Ok [(zlen l, 1)])) /\
+  (l <> [] -> nth_error (agg_seq AMean (pre ++ (h, l) :: post)) (length pre) = Some (Ok [(zsum l, zlen l)])).
+Proof. exact agg_seq_sum_count_mean. Qed.
+
+(* variants that carry state between applications are refuted: percentile with its sort buffer kept in the aggregator
+   value (each application leaves the elements below its index behind), sum / count with a running accumulator, min
+   remembering the best value so far *)
+Theorem c17_percentile_kept_buffer_refuted : exists pn pd ins, 0 < pd /\ 0 <= pn <= 100 * pd /\
+  run_seq (pct_buffered pn pd) ins <> agg_seq (APct pn pd) ins.
+Proof. exact pct_buffered_refuted. Qed.
+Theorem c17_running_accumulators_refuted :
+  (exists ins, run_seq sum_running ins <> agg_seq ASum ins) /\
+  (exists ins, run_seq count_running ins <> agg_seq ACount ins) /\
+  (exists ins, run_seq min_remembering ins <> agg_seq AMin ins).
+Proof. exact running_variants_refuted. Qed.
+
+Example c17_seq_example :
+  agg_seq (APct 50 1) w_seq = [Ok [(30, 1)]; Ok [(2, 1)]; Ok []; Ok [(7, 1)]] /\
+  run_seq (pct_buffered 50 1) w_seq = [Ok [(30, 1)]; Ok [(3, 1)]; Ok [(2, 1)]; Ok [(7, 1)]] /\
+  run_seq (pct_buffered 100 1) w_seq = [Ok [(40, 1)]; Ok [(30, 1)]; Ok [(20, 1)]; Ok [(10, 1)]] /\
+  run_seq (pct_buffered 0 1) w_seq = agg_seq (APct 0 1) w_seq /\
+  run_seq (pct_buffered_cleared 50 1) w_seq = agg_seq (APct 50 1) w_seq.
+Proof. exact pct_buffered_witness. Qed.
+
+Print Assumptions c17_applications_independent. Print Assumptions c17_application_ignores_history.
+Print Assumptions c17_output_only_machine_is_function. Print Assumptions c17_seq_empty_input.
+Print Assumptions c17_seq_percentile_rank. Print Assumptions c17_seq_min_max. Print Assumptions c17_seq_sum_count_mean.
+Print Assumptions c17_percentile_kept_buffer_refuted. Print Assumptions c17_running_accumulators_refuted.
+Print Assumptions c17_seq_example.
